@@ -774,7 +774,12 @@ func (g *c35G) genRTSP() *c35Input {
 	}
 
 	g.deliverRaw(in, &notes)
-	in.Note = fmt.Sprintf("rtsp %s path=%s: %s", flow, v35.Short([]byte(path)), strings.Join(notes, " "))
+	if len(in.Segs) > 0 {
+		if f := bytes.Fields(in.Segs[0].D); len(f) > 1 {
+			path = string(f[1])
+		}
+	}
+	in.Note = fmt.Sprintf("rtsp %s %s: %s", flow, v35.Short([]byte(path)), strings.Join(notes, " "))
 	return in
 }
 
